@@ -580,6 +580,53 @@ func famDischarge(r *Rng, o *Out, tier string) {
 				o.emit("(const sound)", "sound")
 			}
 		}
+		// a discharge that itself demands a further discharge never satisfies its caveat - also when that further
+		// discharge is presented alongside (genuine, any order, duplicates)
+		for ui, u := range tps {
+			kc := r.Bytes(32)
+			mkOuter := []func() *macaroon.Macaroon{
+				func() *macaroon.Macaroon { _, d, _ := macaroon.DischargeTicket(u.p.ka, u.p.loc, u.ticket); return d },
+				func() *macaroon.Macaroon { d, _ := macaroon.New(u.ticket, u.p.loc, u.rn); return d },
+			}[r.Intn(2)]
+			outer := mkOuter()
+			if outer == nil || outer.Add3P(kc, "https://deeper.example") != nil {
+				continue
+			}
+			innerTickets, err := outer.ThirdPartyTickets()
+			if err != nil || len(innerTickets["https://deeper.example"]) == 0 {
+				continue
+			}
+			_, inner, err := macaroon.DischargeTicket(kc, "https://deeper.example", innerTickets["https://deeper.example"])
+			if err != nil {
+				continue
+			}
+			if r.Bool() {
+				inner.Bind(mustEnc(outer))
+			}
+			ds := [][]byte{mustEnc(outer), mustEnc(inner)}
+			if r.Chance(1, 3) {
+				ds = append(ds, ds[1])
+			}
+			for vi, v := range tps {
+				if vi != ui {
+					_, d, _ := macaroon.DischargeTicket(v.p.ka, v.p.loc, v.ticket)
+					ds = append(ds, mustEnc(d))
+				}
+			}
+			for i := len(ds) - 1; i > 0; i-- {
+				j := r.Intn(i + 1)
+				ds[i], ds[j] = ds[j], ds[i]
+			}
+			obs := emitVerify(o, key, final, ds, nil)
+			o.count("nested.withinner")
+			if obs != "err:unmodelled" {
+				if strings.HasPrefix(obs, "ok") {
+					o.emit("(const sound)", "accepted-with-discharge-that-demands-a-further-discharge")
+				} else {
+					o.emit("(const sound)", "sound")
+				}
+			}
+		}
 		// a holder appends an own third-party caveat that re-uses the ISSUER's ticket (own secret, own location)
 		// and presents only a discharge signed under the own secret: the issuer's caveat is still undischarged
 		if len(tps) > 0 {
@@ -698,6 +745,24 @@ func famDischarge(r *Rng, o *Out, tier string) {
 	} else {
 		o.emit("(const sound)", "sound")
 	}
+}
+
+// clearObs: verify, then clear the requests against the returned caveats
+func clearObs(key, tok []byte, ds [][]byte, accs []macaroon.Access) string {
+	return guard(func() string {
+		m, err := macaroon.Decode(tok)
+		if err != nil {
+			return "err:decode"
+		}
+		cs, err := m.Verify(key, ds, nil)
+		if err != nil {
+			return "reject"
+		}
+		if cs.Validate(accs...) == nil {
+			return "permit"
+		}
+		return "deny"
+	})
 }
 
 // ---------------------------------------------------------------- C06 bind
@@ -833,6 +898,43 @@ func famBind(r *Rng, o *Out, tier string) {
 				o.emit("(const sound)", "sound")
 			}
 		}
+		// a binding NESTED in a wrapper is not examined by verification; it reaches clearing, where a binding caveat
+		// refuses every request - so a discharge carrying one, or a permission token carrying one, authorises nothing,
+		// with the node it names, its descendants, ancestors and siblings alike
+		for k := 0; k < 4; k++ {
+			bi, pi := r.Intn(len(hs)), r.Intn(len(hs))
+			nodeM, _ := macaroon.Decode(hs[bi].bytes)
+			nodeID := sha256.Sum256(nodeM.Tail)
+			nb := macaroon.BindToParentToken(nodeID[:16])
+			wrapped := &resset.IfPresent{Ifs: macaroon.NewCaveatSet(&nb), Else: resset.ActionAll}
+			dq := r.Dyn()
+			dq.WF = ""
+			acc, sx := dq.As("full"), dq.Sx("full")
+			var tokB []byte
+			var dsB [][]byte
+			if r.Bool() {
+				_, d, err := macaroon.DischargeTicket(ka, "https://auth.example", it.tp.ticket)
+				if err != nil || d.Add(wrapped) != nil {
+					continue
+				}
+				tokB, dsB = hs[pi].bytes, with(mustEnc(d))
+				o.count("nestedbinding.discharge")
+			} else {
+				pm, _ := macaroon.Decode(hs[pi].bytes)
+				if pm.Add(wrapped) != nil {
+					continue
+				}
+				tokB, dsB = mustEnc(pm), with(mkDis(nil, false))
+				o.count("nestedbinding.permission")
+			}
+			co := clearObs(key, tokB, dsB, []macaroon.Access{acc})
+			o.emit(fmt.Sprintf("(clear %s %s %s (trust) (%s))", hx(key), hx(tokB), sxHexList(dsB), sx), co)
+			if co == "permit" {
+				o.emit("(const sound)", "nested-binding-ignored")
+			} else {
+				o.emit("(const sound)", "sound")
+			}
+		}
 		// several bindings: all must hold
 		for k := 0; k < 10; k++ {
 			b1, b2 := r.Intn(len(hs)), r.Intn(len(hs))
@@ -923,6 +1025,23 @@ func famAttest(r *Rng, o *Out, tier string) {
 			}
 			return c
 		}
+		// wrappers whose inner set holds a CLEAN wrapper (or plain caveats) in front of the attestation / of the
+		// wrapper that holds it: the scan for wrapped attestations must look at every sibling
+		cleanW := func() macaroon.Caveat {
+			return &resset.IfPresent{Ifs: macaroon.NewCaveatSet(&flyio.Apps{Apps: resset.ResourceSet[uint64, resset.Action]{7: resset.ActionRead}}), Else: resset.ActionAll}
+		}
+		wrapSib := func(c macaroon.Caveat, shape int) macaroon.Caveat {
+			switch shape {
+			case 0:
+				return &resset.IfPresent{Ifs: macaroon.NewCaveatSet(cleanW(), c), Else: resset.ActionAll}
+			case 1:
+				return &resset.IfPresent{Ifs: macaroon.NewCaveatSet(cleanW(), wrap(c, 1)), Else: resset.ActionAll}
+			case 2:
+				return &resset.IfPresent{Ifs: macaroon.NewCaveatSet(&flyio.Organization{ID: 1, Mask: resset.ActionAll}, cleanW(), cleanW(), c), Else: resset.ActionAll}
+			default:
+				return &resset.IfPresent{Ifs: macaroon.NewCaveatSet(&resset.IfPresent{Ifs: macaroon.NewCaveatSet(cleanW(), c), Else: resset.ActionAll}), Else: resset.ActionAll}
+			}
+		}
 		trustMaps := map[string]map[string][]macaroon.EncryptionKey{
 			"nil":      nil,
 			"empty":    {},
@@ -1010,6 +1129,20 @@ func famAttest(r *Rng, o *Out, tier string) {
 				handAppend(dw, wrap(att(), depth))
 				cases = append(cases, cas{fmt.Sprintf("attacker.own3p.wrapped%d", depth), finalA, [][]byte{mustEnc(dw)}, false, never})
 			}
+		}
+		// 4b. the same three carriers (trusted proof, bearer-extended root, attacker's own third party) with the
+		// attestation behind clean siblings
+		for shape := 0; shape < 4; shape++ {
+			_, d, _ := macaroon.DischargeTicket(kaTrusted, tpLoc, it.tp.ticket)
+			handAppend(d, wrapSib(att(), shape))
+			cases = append(cases, cas{fmt.Sprintf("trusted.proof.sibling%d", shape), final, [][]byte{mustEnc(d)}, true, never})
+			t3, _ := macaroon.Decode(final)
+			handAppend(t3, wrapSib(att(), shape))
+			_, d0, _ := macaroon.DischargeTicket(kaTrusted, tpLoc, it.tp.ticket)
+			cases = append(cases, cas{fmt.Sprintf("root.add.sibling%d", shape), mustEnc(t3), [][]byte{mustEnc(d0)}, false, never})
+			_, dw, _ := macaroon.DischargeTicket(kaAttacker, tpLoc, itA.tp.ticket)
+			handAppend(dw, wrapSib(att(), shape))
+			cases = append(cases, cas{fmt.Sprintf("attacker.own3p.sibling%d", shape), finalA, [][]byte{mustEnc(dw)}, false, never})
 		}
 		// 5. attacker re-uses a copied trusted ticket as key-id but signs with an own secret
 		{
@@ -1143,9 +1276,37 @@ func famProof(r *Rng, o *Out, tier string) {
 		encoded := false
 		var lastEnc []byte
 		for s, ss := 0, 1+r.Intn(10); s < ss; s++ {
-			switch r.Intn(6) {
+			switch r.Intn(7) {
+			case 6:
+				// an Encode that FAILS (a caveat that stopped being serialisable after it was added): the proof is
+				// finalised by that call all the same, exactly once - later encodings must not finalise again
+				var uc *macaroon.UnregisteredCaveat
+				for _, c := range dm.UnsafeCaveats.Caveats {
+					if u, ok := c.(*macaroon.UnregisteredCaveat); ok {
+						uc = u
+					}
+				}
+				if uc == nil {
+					continue
+				}
+				saved := uc.RawMsgpack
+				uc.RawMsgpack = nil
+				_, err := dm.Encode()
+				uc.RawMsgpack = saved
+				ops = append(ops, "encfail")
+				if err != nil {
+					outs = append(outs, "encfail:err")
+				} else {
+					outs = append(outs, "encfail:ok")
+				}
+				o.count("encfail")
+				encoded = true
+				lastEnc = nil
 			case 0, 1:
 				c := r.plainCav(1)
+				if r.Chance(1, 4) {
+					c = &macaroon.UnregisteredCaveat{Type: macaroon.CaveatType(1<<40 + uint64(r.Intn(3))), RawMsgpack: []byte{0xa1, byte('a' + r.Intn(3))}}
+				}
 				if r.Chance(1, 5) {
 					u := auth.FlyioUserID(7)
 					c = &u
@@ -1170,7 +1331,7 @@ func famProof(r *Rng, o *Out, tier string) {
 					outs = append(outs, "enc:err")
 				} else {
 					outs = append(outs, "enc:"+hx(b))
-					if encoded && !bytes.Equal(b, lastEnc) {
+					if encoded && lastEnc != nil && !bytes.Equal(b, lastEnc) {
 						o.emit("(const sound)", "encoded-form-changed")
 					}
 					lastEnc = b
@@ -1184,7 +1345,7 @@ func famProof(r *Rng, o *Out, tier string) {
 				} else {
 					cb, _ := c.Encode()
 					outs = append(outs, "clone:"+hx(cb))
-					if encoded && !bytes.Equal(cb, lastEnc) {
+					if encoded && lastEnc != nil && !bytes.Equal(cb, lastEnc) {
 						o.emit("(const sound)", "clone-differs")
 					}
 					lastEnc = cb
@@ -1255,22 +1416,6 @@ func famAttenuate(r *Rng, o *Out, tier string) {
 	n := 60
 	if tier == "thorough" {
 		n = 2000
-	}
-	clearObs := func(key, tok []byte, ds [][]byte, accs []macaroon.Access) string {
-		return guard(func() string {
-			m, err := macaroon.Decode(tok)
-			if err != nil {
-				return "err:decode"
-			}
-			cs, err := m.Verify(key, ds, nil)
-			if err != nil {
-				return "reject"
-			}
-			if cs.Validate(accs...) == nil {
-				return "permit"
-			}
-			return "deny"
-		})
 	}
 	for fam := 0; fam < n; fam++ {
 		key := r.Bytes(32)
